@@ -354,7 +354,10 @@ class ModelFile:
         if self.root.nsmap == new_nsmap:
             return
 
-        new_root = self.root.makeelement(
+        # Not `self.root.makeelement()`: that element would live in the
+        # old document without being its root, and absolute XPath
+        # queries (`//...`) on it would still see the old root only.
+        new_root = etree.Element(
             self.root.tag,
             attrib=self.root.attrib,
             nsmap=dict(sorted(new_nsmap.items())),
